@@ -5,14 +5,14 @@ ENTRY = {
         # the shared SQL generator in meta mode: optimized vs unoptimized inside ONE layout (cross-layout differences are C04's)
         fam("SQL", 150, 10000, driver="SQL",
             opts={"quick": {"prop": "C03", "mode": "meta", "cfgs": "mem1,mem1+noopt",
-                            "strata": "filter,case,join,agg,distinct,setop,cte,values,sort_limit", "deny": "subquery,gsets", "types": "i64,f64,date,bool,i64", "sizes": "tiny,small,small,mid"},
+                            "strata": "filter,case,join,agg,distinct,setop,cte,values,sort_limit", "deny": "subquery,gsets", "types": "i64,f64,date,bool,i64", "sizes": "tiny,small"},
                   "thorough": {"prop": "C03", "mode": "meta", "cfgs": "mem1,mem1+noopt,memb,memb+noopt,mem1+only:JoinReorder,mem1+without:JoinReorder",
-                               "strata": "filter,case,join,agg,distinct,setop,cte,values,sort_limit", "deny": "subquery,gsets", "types": "i64,f64,date,bool,i64", "sizes": "tiny,small,small,mid"}}),
+                               "strata": "filter,case,join,agg,distinct,setop,cte,values,sort_limit", "deny": "subquery,gsets", "types": "i64,f64,date,bool,i64", "sizes": "tiny,small"}}),
         fam("SQL", 150, 10000, driver="SQL",
             opts={"quick": {"prop": "C03", "mode": "meta", "cfgs": "pq2x7,pq2x7+noopt", "nulls": "0",
-                            "strata": "filter,case,join,agg,distinct,setop,cte,values,sort_limit", "deny": "subquery,gsets", "types": "i64,f64,date,bool,i64", "sizes": "tiny,small,small,mid"},
+                            "strata": "filter,case,join,agg,distinct,setop,cte,values,sort_limit", "deny": "subquery,gsets", "types": "i64,f64,date,bool,i64", "sizes": "tiny,small"},
                   "thorough": {"prop": "C03", "mode": "meta", "cfgs": "pq2x7,pq2x7+noopt,pq1x0,pq1x0+noopt", "nulls": "0",
-                               "strata": "filter,case,join,agg,distinct,setop,cte,values,sort_limit", "deny": "subquery,gsets", "types": "i64,f64,date,bool,i64", "sizes": "tiny,small,small,mid"}}),
+                               "strata": "filter,case,join,agg,distinct,setop,cte,values,sort_limit", "deny": "subquery,gsets", "types": "i64,f64,date,bool,i64", "sizes": "tiny,small"}}),
     ],
     "gen_items": ["GroupKeyReduction::unique_key_gate", "ParquetTable::ndv_est_int", "PackedJoinKeys::pj_max2", "PackedJoinKeys::pj_k",
                   "PackedJoinKeys::pj_max1", "PackedJoinKeys::pj_overflow", "PackedGroupKeys::pg_k", "PackedGroupKeys::pg_overflow",
@@ -25,7 +25,7 @@ ENTRY = {
             "with the production optimizer (with and without statistics, and through ExecutionContext::sql) and with each statistics-driven rule alone; plans are exported. "
             "family SQL (shared generator, meta mode; two runs): optimized vs unoptimized over memory tables, and over Parquet files with NULL-free data (a nullable GROUP BY "
             "key over Parquet takes different aggregation paths: C21/C04); all strata but subqueries and grouping sets (the unoptimized engine cannot run IN/EXISTS and does not "
-            "bind GROUPING), tables of at most 300 rows (the unoptimized plan of a UNION over thousands of rows exceeds the 60 s case timeout on a loaded machine), no VARCHAR columns (CROSS JOIN loses the NULLs of a left-side VARCHAR column: reported to C22). non-trivial = some rule changed the plan; distinct by sha256 of the case",
+            "bind GROUPING), tables of at most 60 rows (the unoptimized plan of a UNION over thousands of rows exceeds the 60 s case timeout, and the naive Spec evaluation of cross products over 300-row tables takes tens of minutes in the Lean driver), no VARCHAR columns (CROSS JOIN loses the NULLs of a left-side VARCHAR column: reported to C22). non-trivial = some rule changed the plan; distinct by sha256 of the case",
     "trusted_base": COMMON_TB + [
         "plan exporter + decoder (planexport.rs, Driver/PlanJson.lean)",
         "translator prelude of the gates: absDiff, nextPow2 (hand-written Lean models of i64::abs_diff / u64::checked_next_power_of_two, tested by translator/selftest)",
